@@ -245,6 +245,7 @@ def run_tpcn(case):
         import copy as _copy
         import pickle as _pickle
         ms = {"pickle": lambda o: _pickle.loads(_pickle.dumps(o)), "deepcopy": _copy.deepcopy, "copy": _copy.copy}[case["via"]](ms)
+    per = None
     for assign in range(K):
         cc = dict(case, assign=assign)
         # NB: the SAME ModeStatistics object serves both clusters in turn (second use with other labels of equal length);
@@ -257,6 +258,13 @@ def run_tpcn(case):
             c, rec = _extract(r, k, d, 1.0, np.zeros(d))
             if len(rec) != 2:
                 res.violate("tpcn:law-unobservable", f"_propose made {len(rec) - 1} gamma draws (expected exactly one scale-mixture draw)", cc)
+                fail = True
+                break
+            # the proposal of a walker is built around the mode of ITS OWN label (also when lower-numbered modes hold no walker)
+            c_want = means[assign] + math.sqrt(1.0 - sigma ** 2) * (G[k] - means[assign])
+            if per is None and np.max(np.abs(c - c_want)) > 1e-9:
+                res.violate("tpcn:proposal-centre", f"walker at u={G[k].tolist()} carries label {assign} of {K} modes (all walkers do; the other modes are empty): its proposal is centred at {c.tolist()}, "
+                            f"the pCN centre for mode {assign} (mean {means[assign].tolist()}) is {c_want.tolist()}", cc)
                 fail = True
                 break
             A1 = np.stack([_extract(r, k, d, 1.0, np.eye(d)[i])[0] - c for i in range(d)], axis=1)
